@@ -323,6 +323,8 @@ def _pack_order(t, body=None):
     """component order of the 6-vector handed on: Vector6::new(six components), or a vector local filled by two
     fixed_rows_mut::<3>(r).copy_from(&three-vector) at r = 0 and r = 3 (each 3-vector in its own x, y, z order)"""
     t0 = t
+    if body is not None:
+        t = util.peval(body.prog, t)       # a helper that packs the isometry is written out
     t = strip(t)
     if isinstance(t, tuple) and t[0] == 'call' and len(t) == 8:
         out = []
